@@ -8,7 +8,7 @@ for p in "$@"; do
   for m in m1 m2; do
     f=$out/$p.out/${m}_demo_test.go
     [ -f $f ] && [ -f $out/$p.out/$m.diff ] || { echo "$p $m MISSING"; continue; }
-    dir=$(head -25 $f | grep -oE "[A-Za-z0-9_./-]*demo[A-Za-z0-9_]*/" | sed "s|^/tmp/seed/$p/||; s|^\./||" | grep -v "^/" | head -1)
+    dir=$(head -25 $f | grep -oE "[A-Za-z0-9_./-]*demo[A-Za-z0-9_]*/" | sed "s|^${WTROOT:-/tmp/seed}/$p/||; s|^\./||" | grep -v "^/" | head -1)
     dir=${dir%/}
     echo "== $p $m dir=$dir"
     tools/verify_seed.sh $p $m $dir 2>&1 | grep -E "VERIFIED|REJECTED|want"
